@@ -12,7 +12,7 @@ import (
 func init() {
 	register(&propInfo{
 		ID:          "C02",
-		Explanation: "Value-origin and path analysis of the response-routing mechanism of the WebSocket client: (R02.1) request ids are minted only by sync/atomic operations on the client's counter, pass through the id normaliser, and nothing else is stored in a request's id; (R02.2) every id-bearing request that is accepted is registered in the in-flight table under its own id, as itself; (R02.3) every mailbox is a fresh channel of capacity >= 1; (R02.4) the response handler delivers to the mailbox of the entry looked up under the response's own id, with result/error/id taken from that same frame; (R02.5) delivery is single: the response handler removes the entry on every path after delivering, the failer empties the table, the accept arm answers only requests it did not register; (R02.6) frames are executed in arrival order: one executor goroutine started outside any loop, enqueue before the next read is started, synchronous dispatch down to the response / channel handlers; (R02.7) the frame decode target is a zero-valued allocation made per frame (decoding into a recycled struct would alias buffers already handed to callers and handlers). (R02.9) the request queue is unbuffered: the hand-over to the connection loop is a rendezvous, so no request is left in a buffer when the loop exits. (R02.10) the connection-unusable mark is set before every loss signal and cleared only after a new socket is installed. (R02.11) no handler runs on the frame executor; (R02.12) the reverse client is built per connection; (R02.13) every hand-over to the loop watches the current exit signal. (R02.14) the frame queue the executor reads from is made once, at construction. (R02.15) a frame taken off the socket is always queued for the executor. (R02.16) a request whose header the HTTP transport writes to carries a clone or a fresh map.",
+		Explanation: "Value-origin and path analysis of the response-routing mechanism of the WebSocket client: (R02.1) request ids are minted only by sync/atomic operations on the client's counter, pass through the id normaliser, and nothing else is stored in a request's id; (R02.2) every id-bearing request that is accepted is registered in the in-flight table under its own id, as itself; (R02.3) every mailbox is a fresh channel of capacity >= 1; (R02.4) the response handler delivers to the mailbox of the entry looked up under the response's own id, with result/error/id taken from that same frame; (R02.5) delivery is single: the response handler removes the entry on every path after delivering, the failer empties the table, the accept arm answers only requests it did not register; (R02.6) frames are executed in arrival order: one executor goroutine started outside any loop, enqueue before the next read is started, synchronous dispatch down to the response / channel handlers; (R02.7) the frame decode target is a zero-valued allocation made per frame (decoding into a recycled struct would alias buffers already handed to callers and handlers). (R02.9) the request queue is unbuffered: the hand-over to the connection loop is a rendezvous, so no request is left in a buffer when the loop exits. (R02.10) the connection-unusable mark is set before every loss signal and cleared only after a new socket is installed. (R02.11) no handler runs on the frame executor; (R02.12) the reverse client is built per connection; (R02.13) every hand-over to the loop watches the current exit signal. (R02.14) the frame queue the executor reads from is made once, at construction. (R02.15) a frame taken off the socket is always queued for the executor. (R02.16) a request whose header the HTTP transport writes to carries a clone or a fresh map. (R02.17) nothing waits (channel operation, WaitGroup, Cond) between the hand-over of a call to its goroutine and the reflective call of the user method: the start of a handler never depends on the end of others.",
 		NotDecided:  "That a given schedule completes; HTTP (one exchange per call, no shared routing state); the redundant response-id equality checks on the caller side (defensive only).",
 		Assumptions: []string{"encoding/json reuses the backing array of a pre-populated []byte/RawMessage field when decoding into it", "the connection loop is the only receiver of the request queue"},
 		Run:         runC02,
@@ -234,6 +234,8 @@ func runC02(c *Ctx) {
 	c.enqueueRule("R02.13")
 	c.ruleOpt("R02.16", "concurrent HTTP calls share nothing mutable: a request whose header the transport writes to (Set/Add/Del) carries a clone or a fresh map, never the header map the client was configured with")
 	c.headerNotShared("R02.16")
+	c.ruleOpt("R02.17", "the start of a handler never waits for other handlers: between the frame executor handing a call to its goroutine and the user method running there is no channel operation, WaitGroup or Cond wait (a cap on concurrently served calls deadlocks calls whose completion depends on a later call, cancel or reverse-call response on the same connection)")
+	c.noWaitBeforeHandler("R02.17")
 	c.rule("R02.15", "a frame taken off the socket is always handed to the executor: the send on the frame queue waits as long as it takes (no timer or default branch lets the reader discard a frame — the call it answers would never complete)")
 	c.frameNeverDiscarded("R02.15")
 	c.rule("R02.14", "the frame queue the executor reads from is made once, when the connection object is set up: replacing it later (on reconnect) leaves the executor parked on the old queue and no response is dispatched any more")
@@ -1000,5 +1002,100 @@ func (c *Ctx) headerNotShared(rule string) {
 	}
 	if n == 0 {
 		c.ok(rule, "request headers", "-", "no store into an http.Request's Header")
+	}
+}
+
+// noWaitBeforeHandler: R02.17. Calls on one connection may depend on each other: a long-poll or
+// rendezvous method returns when a later call arrives, a handler waits for its own cancel frame or for
+// the response to a reverse call. Every one of them therefore has to be started as soon as its frame is
+// executed. A blocking channel operation (semaphore slot, worker-pool hand-over), a WaitGroup or a Cond
+// wait between the hand-over of the call to its goroutine and the reflective call of the user method
+// makes the start of handler n+1 depend on the end of handlers 1..n: once the first n all wait for
+// call n+1, nothing on the connection ever completes. Decided in the dispatcher's cone (a user call is
+// reachable after the wait in the same activation) and in the goroutine bodies that invoke the
+// dispatcher (the invocation is reachable after the wait). Mutexes are not waits in this sense.
+func (c *Ctx) noWaitBeforeHandler(rule string) {
+	p, r := c.P, c.R
+	if r.FnDisp == nil {
+		c.und(rule, "role:FN_disp", "-", "dispatcher not resolved")
+		return
+	}
+	isWait := func(in ssa.Instruction) string {
+		switch x := in.(type) {
+		case *ssa.Send:
+			return "channel send"
+		case *ssa.Select:
+			if x.Blocking {
+				return "blocking select"
+			}
+		case *ssa.UnOp:
+			if x.Op == token.ARROW {
+				return "channel receive"
+			}
+		case ssa.CallInstruction:
+			switch calleeName(x) {
+			case "(*sync.WaitGroup).Wait":
+				return "WaitGroup.Wait"
+			case "(*sync.Cond).Wait":
+				return "Cond.Wait"
+			}
+		}
+		return ""
+	}
+	n := 0
+	report := func(in ssa.Instruction, what, before string) {
+		n++
+		c.bad(rule, fmt.Sprintf("%s: %s before %s", fname(in.Parent()), what, before), c.ipos(in),
+			"the handler's start waits on something other handlers release ("+what+"): with enough calls parked in their handlers — each waiting for a later call, a cancel frame or a reverse-call response on this connection — the call they wait for is never started and nothing completes")
+	}
+	// (a) inside the dispatcher: a wait from which the user method is still to be called
+	for _, g := range p.cone(r.FnDisp) {
+		if pkgOf(g) != p.Root.Pkg {
+			continue
+		}
+		allInstrs(g, func(in ssa.Instruction) {
+			what := isWait(in)
+			if what == "" {
+				return
+			}
+			if reachFrom(in, c.isUserCall, nil) != nil {
+				report(in, what, "the user method is called")
+			}
+		})
+	}
+	// (b) in the goroutine that serves one call: a wait from which the dispatcher is still to be invoked
+	invs := c.dispInvokes()
+	isInv := func(in ssa.Instruction) bool {
+		for _, x := range invs {
+			if x == in {
+				return true
+			}
+		}
+		return false
+	}
+	seen := map[*ssa.Function]bool{}
+	for _, inv := range invs {
+		fn := inv.Parent()
+		if seen[fn] || !c.spawnedAsGoroutine(fn) {
+			continue
+		}
+		seen[fn] = true
+		for _, g := range p.cone(fn) {
+			if pkgOf(g) != p.Root.Pkg || p.syncReachable(r.FnDisp, g) {
+				continue
+			}
+			allInstrs(g, func(in ssa.Instruction) {
+				what := isWait(in)
+				if what == "" {
+					return
+				}
+				if reachFrom(in, isInv, nil) != nil {
+					report(in, what, "the dispatcher is invoked")
+				}
+			})
+		}
+	}
+	if n == 0 {
+		c.ok(rule, "no instance", "-", "nothing waits between the hand-over of a call and its handler")
 	}
 }
